@@ -235,4 +235,133 @@ theorem addAll_rerun (H : List Node → Id) (h0 h1 : Id → Bool) :
                 exact List.mem_map.mpr ⟨_, this, rfl⟩
           rw [this] at hf; cases hf
 
+/-! ### A backup without parent: what goes to the data packer is a function of the item CONTENTS -/
+
+/-- what a backup without parent hands to `data_packer.add` for one item: the chunks of its content that the index lacks -/
+def itemAdds {γ} (chunk : γ → List Id) (hd : Id → Bool) : Item γ → List Id
+  | .other node x => if node.kind = .file then (chunk x).filter (fun i => !hd i) else []
+  | _ => []
+
+/-- the node with another RECORDED size (`node.meta.size`: what `stat` / the source reported, not what the reader delivers) -/
+def withSize (n : Node) (s : Nat) : Node := { n with md := { n.md with size := s } }
+
+/-- every non-directory item records an arbitrary other size (`f`), the contents stay -/
+def resizeItem {γ} (f : Node → Nat) : Item γ → Item γ
+  | .other node x => .other (withSize node (f node)) x
+  | it => it
+
+theorem itemAdds_resize {γ} (chunk : γ → List Id) (hd : Id → Bool) (f : Node → Nat) (it : Item γ) :
+    itemAdds chunk hd (resizeItem f it) = itemAdds chunk hd it := by
+  cases it <;> simp [resizeItem, itemAdds, withSize]
+
+theorem adds_of_full_run {γ} (chunk : γ → List Id) (len : γ → Nat) (o : Opts) (load : Id → Option (List Node))
+    (hd : Id → Bool) : ∀ (items : List (Item γ)) (st : PState), EmptyP st →
+      (((run o load hd st items).filterMap (fileStep chunk len hd)).map (·.2.1)).flatten =
+        (items.map (itemAdds chunk hd)).flatten
+  | [], _, _ => rfl
+  | it :: its, st, h => by
+    obtain ⟨_, h'⟩ := process_emptyP o load hd hd st it h
+    have ih := adds_of_full_run chunk len o load hd its _ h'
+    have hip : ∀ node name, isParent o st node name = (st, .notFound) := by
+      intro node name
+      obtain ⟨ht, _⟩ := h
+      cases st with
+      | mk trees stack => simp only at ht; subst ht; simp [isParent, isParentGo]
+    simp only [run, List.map_cons, List.flatten_cons]
+    rw [← ih]
+    cases it with
+    | newTree node name => simp [process, hip, fileStep, itemAdds]
+    | endTree =>
+      simp only [process]
+      cases finishDir st with
+      | none =>
+        have e : fileStep chunk len hd (Out.stackEmpty : Out γ) = none := rfl
+        simp only [List.filterMap_cons, e]
+        simp [itemAdds]
+      | some st' => simp [fileStep, itemAdds]
+    | other node x =>
+      by_cases hk : node.kind = .file <;> simp [process, hip, fileStep, itemAdds, PRes.isMatched, hk]
+
+/-! ### … and whether the archiver succeeds depends on the SHAPE of the item stream only -/
+
+def resizeOut {γ} (f : Node → Nat) : Out γ → Out γ
+  | .other node x r => .other (withSize node (f node)) x r
+  | out => out
+
+theorem run_resize {γ} (o : Opts) (load : Id → Option (List Node)) (hd : Id → Bool) (f : Node → Nat) :
+    ∀ (items : List (Item γ)) (st : PState), EmptyP st →
+      run o load hd st (items.map (resizeItem f)) = (run o load hd st items).map (resizeOut f)
+  | [], _, _ => rfl
+  | it :: its, st, h => by
+    obtain ⟨_, h'⟩ := process_emptyP o load hd hd st it h
+    have ih := run_resize o load hd f its _ h'
+    have hip : ∀ node name, isParent o st node name = (st, .notFound) := by
+      intro node name
+      obtain ⟨ht, _⟩ := h
+      cases st with
+      | mk trees stack => simp only at ht; subst ht; simp [isParent, isParentGo]
+    cases it with
+    | newTree node name => simp only [List.map_cons, resizeItem, run]; rw [ih]; simp [process, hip, resizeOut]
+    | endTree =>
+      simp only [List.map_cons, resizeItem, run]; rw [ih]
+      simp only [process]
+      cases finishDir st <;> simp [resizeOut]
+    | other node x =>
+      simp only [List.map_cons, resizeItem, run]
+      have e1 : process o load hd st (Item.other (withSize node (f node)) x) = (st, .other (withSize node (f node)) x .notFound) := by
+        simp [process, hip, withSize]
+      have e2 : process o load hd st (Item.other node x) = (st, .other node x .notFound) := by
+        simp [process, hip]
+      rw [e2] at ih
+      rw [e1, e2]
+      simp only [List.map_cons, resizeOut]
+      rw [ih]
+
+theorem hasPanic_resize {γ} (f : Node → Nat) : ∀ outs : List (Out γ), hasPanic (outs.map (resizeOut f)) = hasPanic outs
+  | [] => rfl
+  | out :: outs => by
+    cases out <;> simp [resizeOut, hasPanic, hasPanic_resize f outs]
+
+/-- what `TreeArchiver::add` looks at to decide between `Ok` and "Tree stack is empty" -/
+def tshape : TItem → Nat
+  | .newTree _ _ => 0
+  | .endTree => 1
+  | .other _ _ _ => 2
+
+theorem fileStep_resize_shape {γ} (chunk : γ → List Id) (len : γ → Nat) (hd : Id → Bool) (f : Node → Nat) (out : Out γ) :
+    (fileStep chunk len hd (resizeOut f out)).map (fun s => tshape s.1) = (fileStep chunk len hd out).map (fun s => tshape s.1) := by
+  cases out with
+  | other node x r =>
+    by_cases hm : r.isMatched = true <;> by_cases hk : node.kind = .file <;>
+      simp [fileStep, resizeOut, withSize, hm, hk, tshape]
+  | _ => rfl
+
+theorem addAll_isSome_shape (H H' : List Node → Id) (h h' : Id → Bool) :
+    ∀ (its its' : List TItem) (s s' : TA), its.map tshape = its'.map tshape → s.stack.length = s'.stack.length →
+      (TA.addAll H h s its).isSome = (TA.addAll H' h' s' its').isSome
+  | [], [], _, _, _, _ => rfl
+  | [], _ :: _, _, _, e, _ => by simp at e
+  | _ :: _, [], _, _, e, _ => by simp at e
+  | it :: its, it' :: its', s, s', e, hl => by
+    simp only [List.map_cons, List.cons.injEq] at e
+    obtain ⟨e1, e2⟩ := e
+    cases it <;> cases it' <;> simp only [tshape] at e1 <;> try omega
+    · simp only [TA.addAll, TA.add]
+      exact addAll_isSome_shape H H' h h' its its' _ _ e2 (by simp [hl])
+    · simp only [TA.addAll, TA.add]
+      cases hs : s.stack with
+      | nil =>
+        have : s'.stack = [] := by rw [hs] at hl; exact List.eq_nil_of_length_eq_zero hl.symm
+        simp [this]
+      | cons x xs =>
+        cases hs' : s'.stack with
+        | nil => rw [hs, hs'] at hl; simp at hl
+        | cons x' xs' =>
+          obtain ⟨n, p, tr⟩ := x
+          obtain ⟨n', p', tr'⟩ := x'
+          simp only []
+          exact addAll_isSome_shape H H' h h' its its' _ _ e2 (by rw [hs, hs'] at hl; simpa using hl)
+    · simp only [TA.addAll, TA.add]
+      exact addAll_isSome_shape H H' h h' its its' _ _ e2 (by simpa [TA.addFile] using hl)
+
 end Rustic.Archive
